@@ -25,11 +25,12 @@ def run(ctx):
             recv = dotted(n.func.value) or ""
             if n.func.attr == "update" and "hash" in recv:
                 n_upd += 1
-                r1.check(f.key in allowed_update or f.key.startswith("gwf.plugins.touch:touch_workflow"), f"{f.module.relpath}::{f.qual}::update", "hash recorded by an owner (accepted submission / touch)",
+                r1.check(f.key in allowed_update or f.key.startswith("gwf.plugins.touch:touch_workflow") or res.owned_by(f, ["gwf.scheduling:submit_backend", "gwf.plugins.touch:touch_workflow"]),
+                         f"{f.module.relpath}::{f.qual}::update", "hash recorded by an owner (accepted submission / touch)",
                          f"{f.qual} records a spec hash: only an accepted submission and `gwf touch` may do that", loc(n, f.module))
             if n.func.attr == "invalidate" and "hash" in recv:
                 n_inv += 1
-                r1.check(f.key in allowed_inval, f"{f.module.relpath}::{f.qual}::invalidate", "hash erased by clean",
+                r1.check(f.key in allowed_inval or res.owned_by(f, ["gwf.plugins.clean:clean"]), f"{f.module.relpath}::{f.qual}::invalidate", "hash erased by clean",
                          f"{f.qual} erases a spec hash: only `gwf clean` may do that", loc(n, f.module))
     r1.check(n_upd >= 2 and n_inv >= 1, "src/gwf::hash-writers", f"{n_upd} update site(s), {n_inv} invalidate site(s)",
              f"found {n_upd} update and {n_inv} invalidate call sites (expected: submit_backend + touch, clean)", "src/gwf")
@@ -38,7 +39,8 @@ def run(ctx):
         for n in walk_no_nested(f.node):
             for e in res.node_effects(n, f):
                 if e.kind == "STATE_MUT" and e.detail == "hashes":
-                    own = f.cls is not None and f.cls.name == "FileSpecHashes" and f.name in ("update", "invalidate", "__attrs_post_init__", "__init__")
+                    own = f.cls is not None and f.cls.name == "FileSpecHashes" and (f.name in ("update", "invalidate", "__attrs_post_init__", "__init__") or res.owned_by(
+                        f, [f"{CORE}:FileSpecHashes.update", f"{CORE}:FileSpecHashes.invalidate", f"{CORE}:FileSpecHashes.__attrs_post_init__", f"{CORE}:FileSpecHashes.__init__"]))
                     r1.check(own, f"{f.module.relpath}::{f.qual}::hashes-store", "table written by update/invalidate/load only",
                              f"{f.qual} writes the hash table directly", e.where)
     rule_hash_after_accept(ctx, r1)
